@@ -58,7 +58,7 @@ pub open spec fn swapped_coin(t: Transaction, k: PoolKey, lw: int, rw: int, tl: 
     &&& (o.denom != k.left ==> c.coin_data.denom == k.left && c.coin_data.value.0 as int == imin2(spec_multiply_frac(lw, o.value.0 as int, tr), MAX_COINVAL.0 as int))
 }
 pub open spec fn swaps_pre(swaps: Seq<Transaction>, k: PoolKey) -> bool {
-    &&& forall|i: int| 0 <= i < swaps.len() ==> 0 < (#[trigger] swaps[i]).outputs@.len() <= 255 && swaps[i].outputs@[0].value.0 > 0 && (swaps[i].outputs@[0].denom == k.left || swaps[i].outputs@[0].denom == k.right)
+    &&& forall|i: int| 0 <= i < swaps.len() ==> 0 < (#[trigger] swaps[i]).outputs@.len() && swaps[i].outputs@[0].value.0 > 0 && (swaps[i].outputs@[0].denom == k.left || swaps[i].outputs@[0].denom == k.right)
     &&& forall|i: int, j: int| 0 <= i < j < swaps.len() ==> spec_txhash(#[trigger] swaps[i]) != spec_txhash(#[trigger] swaps[j])
     &&& k.left != k.right
 }
@@ -177,3 +177,147 @@ pub proof fn lemma_filter_refs<T>(items: Seq<&T>, txs: Seq<T>, b: spec_fn(&T) ->
     }
 }
 pub open spec fn for_pool(k: PoolKey) -> spec_fn(Transaction) -> bool { |tx: Transaction| spec_req_key(tx.data@) == Some(k) }
+
+// ---- the swap phase over all pools named by the block's requests (process_swaps)
+pub open spec fn swap_key(tx: Transaction) -> PoolKey { spec_req_key(tx.data@)->Some_0 }
+pub open spec fn pool_reqs(reqs: Seq<Transaction>, k: PoolKey) -> Seq<Transaction> { reqs.filter(for_pool(k)) }
+pub open spec fn swap_tl(reqs: Seq<Transaction>, k: PoolKey) -> int { side_total(pool_reqs(reqs, k), k.left, pool_reqs(reqs, k).len() as int) }
+pub open spec fn swap_tr(reqs: Seq<Transaction>, k: PoolKey) -> int { side_total(pool_reqs(reqs, k), k.right, pool_reqs(reqs, k).len() as int) }
+pub open spec fn swap_lw(p0: PoolState, tl: int, tr: int) -> int { swap_out(tr, sat128(p0.rights + tr), sat128(p0.lefts + tl)) }
+pub open spec fn swap_rw(p0: PoolState, tl: int, tr: int) -> int { swap_out(tl, sat128(p0.lefts + tl), sat128(p0.rights + tr)) }
+/// C15: one pool after its batch of swaps: both sides' totals go in, each side's payout at the single post-deposit price comes out
+pub open spec fn pool_swapped(p0: PoolState, p1: PoolState, tl: int, tr: int) -> bool {
+    p1.lefts as int == sat128(p0.lefts + tl) - swap_lw(p0, tl, tr) && p1.rights as int == sat128(p0.rights + tr) - swap_rw(p0, tl, tr) && p1.liqs == p0.liqs && pool_live(p1)
+}
+pub open spec fn reqs_distinct(reqs: Seq<Transaction>) -> bool { forall|i: int, j: int| 0 <= i < j < reqs.len() ==> spec_txhash(#[trigger] reqs[i]) != spec_txhash(#[trigger] reqs[j]) }
+/// every request is a genuine swap request of state s0 (pools0/c0 are s0's pools and coins)
+pub open spec fn swap_reqs_ok(pools0: Map<PoolKey, PoolState>, c0: IMap<CoinID, CoinDataHeight>, reqs: Seq<Transaction>) -> bool {
+    &&& reqs_distinct(reqs)
+    &&& forall|j: int| 0 <= j < reqs.len() ==> ({ let tx = #[trigger] reqs[j];
+            tx.outputs@.len() > 0 && c0.contains_key(cid(tx, 0)) && spec_req_key(tx.data@) is Some && pools0.contains_key(swap_key(tx)) && pool_live(pools0[swap_key(tx)])
+            && (tx.outputs@[0].denom == swap_key(tx).left || tx.outputs@[0].denom == swap_key(tx).right) && tx.outputs@[0].value.0 > 0 })
+}
+/// the pools in `done` have been settled: their reserves moved as above, each of their requests' first output replaced by its
+/// pro-rata share; every other pool and every other coin is untouched
+pub open spec fn swaps_done(pools0: Map<PoolKey, PoolState>, c0: IMap<CoinID, CoinDataHeight>, height: BlockHeight, reqs: Seq<Transaction>, done: ISet<PoolKey>,
+                            pools1: Map<PoolKey, PoolState>, c1: IMap<CoinID, CoinDataHeight>) -> bool {
+    &&& pools1.dom() == pools0.dom()
+    &&& forall|k: PoolKey| #[trigger] pools0.contains_key(k) ==> (if done.contains(k) { pool_swapped(pools0[k], pools1[k], swap_tl(reqs, k), swap_tr(reqs, k)) } else { pools1[k] == pools0[k] })
+    &&& forall|id: CoinID| #[trigger] c1.contains_key(id) <==> c0.contains_key(id)
+    &&& forall|j: int| 0 <= j < reqs.len() ==> ({ let tx = #[trigger] reqs[j]; let k = swap_key(tx); let tl = swap_tl(reqs, k); let tr = swap_tr(reqs, k);
+            if done.contains(k) { swapped_coin(tx, k, swap_lw(pools0[k], tl, tr), swap_rw(pools0[k], tl, tr), tl, tr, height, c1[cid(tx, 0)]) } else { c1[cid(tx, 0)] == c0[cid(tx, 0)] } })
+    &&& forall|id: CoinID| c1.contains_key(id) && !(exists|j: int| 0 <= j < reqs.len() && id == cid(#[trigger] reqs[j], 0)) ==> #[trigger] c1[id] == c0[id]
+}
+pub proof fn lemma_filter_distinct(reqs: Seq<Transaction>, p: spec_fn(Transaction) -> bool)
+    requires reqs_distinct(reqs) ensures reqs_distinct(reqs.filter(p))
+    decreases reqs.len()
+{
+    reveal_with_fuel(Seq::filter, 2);
+    if reqs.len() > 0 {
+        let t = reqs.drop_last(); let l = reqs[reqs.len() - 1];
+        assert(reqs_distinct(t)) by { assert forall|i: int, j: int| 0 <= i < j < t.len() implies spec_txhash(#[trigger] t[i]) != spec_txhash(#[trigger] t[j]) by { assert(t[i] == reqs[i] && t[j] == reqs[j]); } }
+        lemma_filter_distinct(t, p);
+        lemma_filter_mem(t, p);
+        let f = t.filter(p);
+        if p(l) {
+            let e = f.push(l);
+            assert forall|i: int, j: int| 0 <= i < j < e.len() implies spec_txhash(#[trigger] e[i]) != spec_txhash(#[trigger] e[j]) by {
+                if j == f.len() { assert(f.contains(f[i])); assert(t.contains(f[i])); let q = choose|q: int| 0 <= q < t.len() && t[q] == f[i]; assert(reqs[q] == f[i]); assert(spec_txhash(reqs[q]) != spec_txhash(reqs[reqs.len() - 1])); }
+            }
+        }
+    }
+}
+/// the requests of pool k satisfy the single-pool precondition
+pub proof fn lemma_pool_reqs_pre(pools0: Map<PoolKey, PoolState>, c0: IMap<CoinID, CoinDataHeight>, reqs: Seq<Transaction>, k: PoolKey)
+    requires swap_reqs_ok(pools0, c0, reqs), mentions(reqs, k)
+    ensures swaps_pre(pool_reqs(reqs, k), k), pools0.contains_key(k) && pool_live(pools0[k])
+{
+    broadcast use axiom_bytes_lt;
+    let rk = pool_reqs(reqs, k);
+    lemma_filter_mem(reqs, for_pool(k));
+    lemma_filter_distinct(reqs, for_pool(k));
+    assert forall|i: int| 0 <= i < rk.len() implies 0 < (#[trigger] rk[i]).outputs@.len() && rk[i].outputs@[0].value.0 > 0 && (rk[i].outputs@[0].denom == k.left || rk[i].outputs@[0].denom == k.right) by {
+        assert(rk.contains(rk[i])); let j = choose|j: int| 0 <= j < reqs.len() && reqs[j] == rk[i]; assert(for_pool(k)(reqs[j]));
+    }
+    let j0 = choose|j: int| 0 <= j < reqs.len() && spec_req_key((#[trigger] reqs[j]).data@) == Some(k);
+    assert(swap_key(reqs[j0]) == k);
+    assert(pk_canonical(k));
+}
+/// settling one more pool
+pub proof fn lemma_swaps_done_step(pools0: Map<PoolKey, PoolState>, c0: IMap<CoinID, CoinDataHeight>, height: BlockHeight, reqs: Seq<Transaction>, done: ISet<PoolKey>,
+        pb: Map<PoolKey, PoolState>, cb: IMap<CoinID, CoinDataHeight>, k: PoolKey, p1: Map<PoolKey, PoolState>, c1: IMap<CoinID, CoinDataHeight>)
+    requires swap_reqs_ok(pools0, c0, reqs), swaps_done(pools0, c0, height, reqs, done, pb, cb), !done.contains(k), mentions(reqs, k),
+             p1.dom() == pb.dom().insert(k), forall|k2: PoolKey| k2 != k && pb.contains_key(k2) ==> #[trigger] p1[k2] == pb[k2],
+             pool_swapped(pb[k], p1[k], swap_tl(reqs, k), swap_tr(reqs, k)),
+             swaps_settled(cb, c1, pool_reqs(reqs, k), pool_reqs(reqs, k).len() as int, k, swap_lw(pb[k], swap_tl(reqs, k), swap_tr(reqs, k)), swap_rw(pb[k], swap_tl(reqs, k), swap_tr(reqs, k)), swap_tl(reqs, k), swap_tr(reqs, k), height)
+    ensures swaps_done(pools0, c0, height, reqs, done.insert(k), p1, c1)
+{
+    broadcast use axiom_txhash_inj;
+    let rk = pool_reqs(reqs, k); let d2 = done.insert(k);
+    lemma_filter_mem(reqs, for_pool(k));
+    lemma_pool_reqs_pre(pools0, c0, reqs, k);
+    assert(pb[k] == pools0[k]);
+    assert(p1.dom() =~= pools0.dom());
+    // a coin id is the first output of a request of pool k iff that request is in rk
+    assert forall|j: int, i: int| 0 <= j < reqs.len() && 0 <= i < rk.len() && cid(#[trigger] reqs[j], 0) == cid(#[trigger] rk[i], 0) implies reqs[j] == rk[i] by {
+        assert(rk.contains(rk[i])); let q = choose|q: int| 0 <= q < reqs.len() && reqs[q] == rk[i];
+        assert(spec_txhash(reqs[j]) == spec_txhash(reqs[q]));
+        if j != q { if j < q { assert(spec_txhash(reqs[j]) != spec_txhash(reqs[q])); } else { assert(spec_txhash(reqs[q]) != spec_txhash(reqs[j])); } }
+    }
+    assert forall|id: CoinID| #[trigger] c1.contains_key(id) <==> c0.contains_key(id) by {
+        if exists|i: int| 0 <= i < rk.len() && id == cid(#[trigger] rk[i], 0) {
+            let i = choose|i: int| 0 <= i < rk.len() && id == cid(#[trigger] rk[i], 0);
+            assert(rk.contains(rk[i])); let q = choose|q: int| 0 <= q < reqs.len() && reqs[q] == rk[i]; assert(c0.contains_key(cid(reqs[q], 0)));
+        }
+        assert(cb.contains_key(id) <==> c0.contains_key(id));
+    }
+    assert forall|j: int| 0 <= j < reqs.len() implies ({ let tx = #[trigger] reqs[j]; let kk = swap_key(tx); let tl = swap_tl(reqs, kk); let tr = swap_tr(reqs, kk);
+            if d2.contains(kk) { swapped_coin(tx, kk, swap_lw(pools0[kk], tl, tr), swap_rw(pools0[kk], tl, tr), tl, tr, height, c1[cid(tx, 0)]) } else { c1[cid(tx, 0)] == c0[cid(tx, 0)] } }) by {
+        let tx = reqs[j]; let kk = swap_key(tx);
+        if kk == k {
+            assert(for_pool(k)(tx)); assert(reqs.contains(tx)); assert(rk.contains(tx));
+            let i = choose|i: int| 0 <= i < rk.len() && rk[i] == tx;
+            assert(swapped_coin(rk[i], k, swap_lw(pb[k], swap_tl(reqs, k), swap_tr(reqs, k)), swap_rw(pb[k], swap_tl(reqs, k), swap_tr(reqs, k)), swap_tl(reqs, k), swap_tr(reqs, k), height, c1[cid(rk[i], 0)]));
+        } else {
+            // not a request of pool k: its coin is not touched by this step
+            assert(!(exists|i: int| 0 <= i < rk.len() && cid(tx, 0) == cid(#[trigger] rk[i], 0))) by {
+                if exists|i: int| 0 <= i < rk.len() && cid(tx, 0) == cid(#[trigger] rk[i], 0) {
+                    let i = choose|i: int| 0 <= i < rk.len() && cid(tx, 0) == cid(#[trigger] rk[i], 0);
+                    assert(reqs[j] == rk[i]); assert(rk.contains(rk[i])); assert(for_pool(k)(rk[i]));
+                }
+            }
+            assert(cb.contains_key(cid(tx, 0)));
+            assert(c1.contains_key(cid(tx, 0)));
+            assert(c1[cid(tx, 0)] == cb[cid(tx, 0)]);
+        }
+    }
+    assert forall|id: CoinID| c1.contains_key(id) && !(exists|j: int| 0 <= j < reqs.len() && id == cid(#[trigger] reqs[j], 0)) implies #[trigger] c1[id] == c0[id] by {
+        assert(!(exists|i: int| 0 <= i < rk.len() && id == cid(#[trigger] rk[i], 0))) by {
+            if exists|i: int| 0 <= i < rk.len() && id == cid(#[trigger] rk[i], 0) {
+                let i = choose|i: int| 0 <= i < rk.len() && id == cid(#[trigger] rk[i], 0);
+                assert(rk.contains(rk[i])); let q = choose|q: int| 0 <= q < reqs.len() && reqs[q] == rk[i]; assert(id == cid(reqs[q], 0));
+            }
+        }
+        assert(c1[id] == cb[id]);
+    }
+}
+pub open spec fn swap_pred<C: ContentAddrStore>(s: UnsealedState<C>) -> spec_fn(Transaction) -> bool { |tx: Transaction| is_swap_req(s, tx) }
+pub open spec fn done_set(ks: Seq<PoolKey>, n: int) -> ISet<PoolKey> { ISet::new(|k: PoolKey| exists|j: int| 0 <= j < n && ks[j] == k) }
+/// the selected swap requests are genuine and pairwise distinct transactions
+pub proof fn lemma_selected_swaps<C: ContentAddrStore>(s: UnsealedState<C>, reqs: Seq<Transaction>)
+    requires selected(s.transactions@, reqs, swap_pred(s)), txs_keyed(s.transactions@)
+    ensures swap_reqs_ok(s.pools@, s.coins@.coins, reqs)
+{
+    let txs = s.transactions@;
+    let ks = choose|ks: Seq<TxHash>| #[trigger] is_enum(txs, ks) && reqs == Seq::new(ks.len(), |i: int| txs[ks[i]]).filter(swap_pred(s));
+    let items = Seq::new(ks.len(), |i: int| txs[ks[i]]);
+    assert(reqs_distinct(items)) by {
+        assert forall|i: int, j: int| 0 <= i < j < items.len() implies spec_txhash(#[trigger] items[i]) != spec_txhash(#[trigger] items[j]) by {
+            assert(ks.contains(ks[i]) && ks.contains(ks[j])); assert(txs.contains_key(ks[i]) && txs.contains_key(ks[j]));
+            assert(spec_txhash(txs[ks[i]]) == ks[i] && spec_txhash(txs[ks[j]]) == ks[j]);
+        }
+    }
+    lemma_filter_distinct(items, swap_pred(s));
+    lemma_filter_mem(items, swap_pred(s));
+    assert forall|j: int| 0 <= j < reqs.len() implies is_swap_req(s, #[trigger] reqs[j]) by { assert(reqs.contains(reqs[j])); assert(swap_pred(s)(reqs[j])); }
+}
